@@ -931,22 +931,25 @@ class CallMixin:
         per_var = []
         for v in vs:
             found = []
+            found_dep = []      # reads indexed by v of an array that depends on the *other* bound variables (xs[c][t])
             seen = set()
 
             def walk(t):
                 if t.get_id() in seen:
                     return
                 seen.add(t.get_id())
-                if z3.is_select(t) and t.num_args() == 2 and t.arg(1).eq(v) and not _mentions(t.arg(0), vs) \
-                        and _pattern_ok(t.arg(0)):
-                    found.append(t)
+                if z3.is_select(t) and t.num_args() == 2 and t.arg(1).eq(v) and _pattern_ok(t.arg(0)):
+                    if not _mentions(t.arg(0), vs):
+                        found.append(t)
+                    elif not _mentions(t.arg(0), [v]):
+                        found_dep.append(t)
                 if z3.is_quantifier(t):
                     return
                 for c in t.children():
                     walk(c)
             walk(body)
             uniq = []
-            for f in found:
+            for f in (found or found_dep):
                 if not any(f.eq(u) for u in uniq):
                     uniq.append(f)
             if not uniq:
